@@ -344,7 +344,7 @@ inline void campaign(const char* wlname, const Args& a, vh::Rng& rng, const char
   // bursts (free-running only): many short loops over a wide initial range with trivial items and nothing pushed -- the
   // threads spend the loop in the worklist's hand-over / stealing code rather than in the operator
   if (a.mode == "free") {
-    int bursts = mult * (a.thorough ? 150 : 40);
+    int bursts = mult * (a.thorough ? 80 : 40);
     for (int e = 0; e < bursts; ++e) {
       uint64_t s = rng.next();
       RunCfg rc;
